@@ -261,22 +261,26 @@ def run_case(case):
         for k in range(1, min(distinct, 3) + 1):
             for iname, init in (("k-means++", "k-means++"), ("random", "random"), ("callable", init_callable), ("array", numpy.array(dpa[:k]))):
                 for n_init in ("auto", 3):
-                    for rs in case["seeds"][:3]:
+                    for rs, (wname, sw) in itertools.product(case["seeds"][:3], (("none", None), ("constant 3", numpy.full(n, 3.0)), ("constant 0.25", [0.25] * n),
+                                                                                 ("1,2,3 cycling", 1.0 + numpy.arange(n) % 3))):
+                        if sw is not None and (rs != case["seeds"][0] or n_init != 3):
+                            continue
                         cnt += 1
-                        desc = "X=%r k=%d init=%s n_init=%r random_state=%d" % (pts, k, iname, n_init, rs)
+                        desc = "X=%r k=%d init=%s n_init=%r random_state=%d sample_weight=%s" % (pts, k, iname, n_init, rs, wname)
                         try:
-                            ref = KMeans(n_clusters=k, init=init, random_state=rs, n_init=n_init).fit(Xa)
+                            ref = KMeans(n_clusters=k, init=init, random_state=rs, n_init=n_init).fit(Xa, sample_weight=sw)
                         except Exception:
                             continue
                         try:
-                            m2 = KMeansL1L2(n_clusters=k, init=init, random_state=rs, n_init=n_init, norm="L2").fit(Xa)
+                            m2 = KMeansL1L2(n_clusters=k, init=init, random_state=rs, n_init=n_init, norm="L2").fit(Xa, sample_weight=sw)
                         except Exception as e:
                             bad("L2 fit raises %s" % type(e).__name__, "init=%s,n_init=%s" % (iname, n_init), "%s %s" % (e, desc))
                             continue
+                        icond = iname + (",sample_weight" if sw is not None else "")
                         if not (numpy.array_equal(ref.labels_, m2.labels_) and numpy.array_equal(ref.cluster_centers_, m2.cluster_centers_)
                                 and ref.inertia_ == m2.inertia_ and numpy.array_equal(ref.predict(probes_base), m2.predict(probes_base))
                                 and numpy.array_equal(ref.transform(probes_base), m2.transform(probes_base))):
-                            bad("L2 differs from sklearn KMeans", "init=%s,n_init=%s" % (iname, n_init), desc)
+                            bad("L2 differs from sklearn KMeans", "init=%s,n_init=%s" % (icond, n_init), desc)
     # history: one instance fitted on X, queried, then fitted on a shifted and stretched copy; both norms
     if distinct >= 2:
         X1 = numpy.array(pts, dtype=numpy.float64)
